@@ -202,9 +202,37 @@ def run(index: RepoIndex, rep) -> None:
             continue
         cname, (ckind, incs) = next(iter(counters.items()))
         read = cname if ckind == 'var' else f'next({cname})'
+        def bulk(e) -> bool:
+            """`M[i, :n] = list(islice(counter, n))` with n = T.num_states() and
+            i = T.type_index() for the loop variable T: the next n fresh indices, in order"""
+            if ckind != 'iter' or not e.loops:
+                return False
+            v, t = e.value, e.target
+            tv = src(e.loops[-1][0])
+            if not (isinstance(v, ast.Call) and src(v.func) in ('list', 'tuple', 'np.array')
+                    and len(v.args) == 1 and isinstance(v.args[0], ast.Call)
+                    and src(v.args[0].func) in ('itertools.islice', 'islice')
+                    and len(v.args[0].args) == 2 and src(v.args[0].args[0]) == cname):
+                return False
+            def here(x: ast.AST) -> str:
+                # a local assigned once per loop body denotes the binding of this loop
+                if isinstance(x, ast.Name):
+                    ds = [d for d in w.defs.get(x.id, []) if d[0] == 'value'
+                          and [src(l[0]) for l in d[4]] == [src(l[0]) for l in e.loops]
+                          and [id(l[1]) for l in d[4]] == [id(l[1]) for l in e.loops]]
+                    if len(ds) == 1:
+                        return src(ds[0][1])
+                return src(w.expand(x))
+            n = here(v.args[0].args[1])
+            sl = t.slice
+            return n == f'{tv}.num_states()' and isinstance(sl, ast.Tuple) and \
+                len(sl.elts) == 2 and here(sl.elts[0]) == f'{tv}.type_index()' and \
+                isinstance(sl.elts[1], ast.Slice) and sl.elts[1].lower is None and \
+                sl.elts[1].step is None and sl.elts[1].upper is not None and \
+                here(sl.elts[1].upper) == n
         stores = [e for e in w.events if e.kind == 'store'
                   and isinstance(e.target, ast.Subscript) and e.value is not None
-                  and src(e.value) == read]
+                  and (src(e.value) == read or bulk(e))]
         rep.check(len(stores) == 3, 'C16.R6', rel, f'{c.name}.__init__', init.node.lineno,
                   '; '.join(src(e.stmt) for e in stores),
                   f'expected three map stores, found {len(stores)}', f'{c.name} three maps')
@@ -240,6 +268,7 @@ def run(index: RepoIndex, rep) -> None:
                 return 'states'
             return '?'
         kinds = [loop_kind(x) for x in loop_exprs]
+        kinds = ['states' if bulk(e) and k == 'types' else k for e, k in zip(stores, kinds)]
         rep.check(sorted(kinds) == ['colours', 'states', 'types'], 'C16.R6', rel,
                   f'{c.name}.__init__',
                   init.node.lineno, '; '.join(loops),
